@@ -195,10 +195,9 @@ fn translate_head(
             ),
             Some(v) => Ok(Rc::new(v.with_loc(l.clone()))),
         },
-        SExp::Integer(l, i) => match prim_map.get(&u8_from_number(i.clone())) {
-            None => Ok(sexp.clone()),
-            Some(v) => Ok(Rc::new(v.with_loc(l.clone()))),
-        },
+        // A number is an opcode already.  (Looking its bytes up in the table of
+        // primitive *names* turned opcode 99, the byte 'c', into cons.)
+        SExp::Integer(_, _) => Ok(sexp.clone()),
         SExp::Cons(_l, _a, nil) => match nil.borrow() {
             SExp::Nil(_l1) => run(
                 allocator,
